@@ -1244,6 +1244,10 @@ func (e *specEnv) call(n *ast.CallExpr) Val {
 			cur := e.t.heapGet(e.cur, "$held", "(Array Int Int)")
 			old := e.t.heapGet(e.old, "$held", "(Array Int Int)")
 			return Val{tBool, []string{eq(cur, old)}}
+		case "heldnone":
+			// this goroutine holds no lock at all (a freshly started goroutine, or a public entry point)
+			cur := e.t.heapGet(e.cur, "$held", "(Array Int Int)")
+			return Val{tBool, []string{eq(cur, "((as const (Array Int Int)) 0)")}}
 		case "heldonly":
 			// exactly the entry set plus the given lock
 			v := e.eval(n.Args[0])
@@ -1361,9 +1365,13 @@ func (e *specEnv) addrOf(x ast.Expr) Val {
 	}
 	ref := v.C[0]
 	S := T
-	for _, i := range path {
+	for k, i := range path {
 		su := under(S).(*types.Struct)
 		f := su.Field(i)
+		if k == len(path)-1 && !isStruct(f.Type()) {
+			// the address of a non-struct field: the same term the translator uses when &x.f becomes a pointer value
+			return Val{types.NewPointer(f.Type()), []string{fmt.Sprintf("(addrof %s %d)", ref, e.t.eng.fieldID(S, f.Name()))}}
+		}
 		if i != 0 {
 			ref = subref(ref, S, i)
 		}
